@@ -13,7 +13,7 @@
    C19-importrule-csstext-import-error: `self.href = ...` is the last step of the commit and loading the
    imported sheet may raise): `C19_importrule_csstext_refuted` exhibits the execution, and
    `C19_rejected_assignment_unchanged_partial` proves the statement for all other setters.            *)
-From CssV Require Import Base Atomic AtomicFacts Gen.Scripts AtomicHand.
+From CssV Require Import Base Atomic AtomicFacts AtomicLenient Gen.Scripts AtomicHand.
 Open Scope string_scope.
 Open Scope list_scope.
 
@@ -59,6 +59,63 @@ Theorem C19_repaired_setters_atomic :
   atomic script_CSSImportRule_href = true.
 Proof. exact repaired_setters_atomic. Qed.
 Print Assumptions C19_repaired_setters_atomic.
+
+(* ------------------------------------------------------------------ lenient mode
+   SECOND STATEMENT (log.raiseExceptions = False: the error is logged, the setter returns): whenever a setter clears
+   its commit flag (logged rejection) or raises, it has written nothing to the object:
+
+     forall name s, In (name, s) lsetters ->
+       forall ro ws f o, lexec ro s false (ws, f, o) -> f = true \/ o = ORaise -> ws = [].
+
+   `lexec` has one semantics for both modes (a failing check may raise or log + clear the flag); `LGuard` (`if wellformed:`)
+   runs its body only while the flag is clear.  Excluded: the open finding and the unused media-query shortcut of
+   Property.cssText (see AtomicHand.v).                                                                         *)
+Theorem C19_atomic_lenient_sound :
+  forall s, atomic_lenient s = true ->
+    forall ro ws f o, lexec ro s false (ws, f, o) -> f = true \/ o = ORaise -> ws = [].
+Proof. exact atomic_lenient_sound. Qed.
+Print Assumptions C19_atomic_lenient_sound.
+
+Theorem C19_reject_fields_sound :
+  forall s ro ws f o, lexec ro s false (ws, f, o) -> f = true \/ o = ORaise -> incl ws (reject_fields s).
+Proof. exact reject_fields_sound. Qed.
+Print Assumptions C19_reject_fields_sound.
+
+Theorem C19_logged_rejection_unchanged_partial :
+  forall name s, In (name, s) lsetters -> lenient_excluded name = false ->
+    forall ro ws f o, lexec ro s false (ws, f, o) -> f = true \/ o = ORaise -> ws = [].
+Proof. exact lsetters_unchanged_partial. Qed.
+Print Assumptions C19_logged_rejection_unchanged_partial.
+
+Theorem C19_scripts_are_erasures :
+  map (fun p : string * lscript => (fst p, erase (snd p))) lsetters = setters.
+Proof. exact setters_are_erased. Qed.
+Print Assumptions C19_scripts_are_erasures.
+
+Theorem C19_mq_shortcut_refuted : atomic_lenient lscript_Property_cssText__mediaQuery_ = false.
+Proof. exact mq_shortcut_refuted. Qed.
+Print Assumptions C19_mq_shortcut_refuted.
+
+(* the shape of the seeded regression seeded/C16-1: the commit of _element/_specificity hoisted out of the guard *)
+Example C19_ex_write_outside_guard :
+  atomic_lenient (LSeq LFail (LSeq (LWrite "_specificity") (LGuard (LWrite "_seq")))) = false
+  /\ atomic_lenient (LSeq LFail (LGuard (LSeq (LWrite "_specificity") (LWrite "_seq")))) = true
+  /\ lexec false (LSeq LFail (LSeq (LWrite "_specificity") (LGuard (LWrite "_seq")))) false (["_specificity"], true, ONormal).
+Proof.
+  split; [vm_compute; reflexivity|]. split; [vm_compute; reflexivity|].
+  change ["_specificity"] with ([] ++ (["_specificity"] ++ [])).
+  eapply LESeq; [apply LEFailLog|]. eapply LESeq; [apply LEWrite|apply LEGuardSkip].
+Qed.
+
+(* a lenient execution that is not a rejection commits: the guard is not vacuous *)
+Example C19_ex_guard_commits :
+  lexec false lscript_CSSComment_cssText false (["_cssText"], false, ONormal).
+Proof.
+  unfold lscript_CSSComment_cssText.
+  repeat first [apply LEScope; [|discriminate] | eapply LEScopeRet].
+  change ["_cssText"] with ([] ++ ["_cssText"]).
+  eapply LESeq; [apply (LECheckRO false)|]. apply LEIfR. apply LEWrite.
+Qed.
 
 (* ------------------------------------------------------------------ non-vacuity *)
 (* the theorems speak about setters that do raise: every setter script that the analysis says can raise has a
